@@ -54,6 +54,8 @@ JudgeMono(ev) ==
          \o (IF MonoProgress(ev.ret, ev.boff, ev.bsize, ev.hist, ev.n, ev.t.tsize, ev.t.talign) THEN <<>> ELSE <<"mono-progress">>)
 
 Judge(ev) ==
+    IF "f" \notin DOMAIN ev THEN (IF ev.op = "trap" THEN <<"crash">> ELSE <<>>)    \* trap event (the process died) / case boundary
+    ELSE
     CASE ev.f = "align" -> JudgeAlign(ev)
       [] ev.f = "ident" -> JudgeIdent(ev)
       [] ev.f = "pip" -> JudgePip(ev)
